@@ -85,7 +85,7 @@ from mashumaro.jsonschema.models import (
     JSONSchemaInstanceType,
     JSONSchemaStringFormat,
 )
-from mashumaro.types import SerializationStrategy
+from mashumaro.types import Alias, SerializationStrategy
 
 try:
     from mashumaro.mixins.orjson import (
@@ -127,6 +127,12 @@ class Instance:
     @property
     def alias(self) -> Optional[str]:
         alias = self.metadata.get("alias")
+        if alias is None:
+            # the same precedence as the (de)serializers: an Annotated Alias
+            # comes after the field metadata and before Config.aliases
+            for annotation in self.annotations:
+                if isinstance(annotation, Alias):
+                    alias = annotation.name
         if alias is None:
             aliases_config = self.get_owner_config().aliases
             alias = aliases_config.get(self.name)  # type: ignore
